@@ -4,7 +4,7 @@ from .runner import register
 TRUSTED = ["rustc nightly MIR construction and Instance::try_resolve", "vp-driver fact extraction (coverage assertion: every fn/method/closure body present)",
            "the Python engine (CFG, dominance, terms, call graph)", "reviewed tables under /verif/tables", "external crates behave as publicly documented"]
 
-register("C10", ["c10"],
+register("C10", ["c10", "c10g"],
          "Static may-panic analysis. The fact base is rebuilt from /repo's current tree; the resolved call graph (direct calls, class-hierarchy expansion of trait/dyn calls, fn values, closures) is closed from the network runner, bft, engine and executor entry points, every ProtoFmt/ProtoRepr::read, ByteFmt/TextFmt::decode and rpc::Handler impl; every MIR overflow/div-by-zero assert, unwrap/expect, explicit panic, Index call and documented-panic external API in that closure must be machine-discharged, in the reviewed table, or is reported. Decides the 'never panics' clause structurally (over-approximation: a pass means no unreviewed panic-capable instruction is reachable); does not execute anything.",
          ["panics inside external crates are limited to their documented '# Panics' sections", "stack exhaustion and allocation failure are out of scope", "reviewed table entries are correct"],
          TRUSTED)
